@@ -63,36 +63,40 @@ def _guarded_conversion(fn, conv):
     return False
 
 
+REF_GET = """
+value = self._engine.get_value(expr)
+if isinstance(expr, ValueCastable):
+    shape = expr.shape()
+    if isinstance(shape, ShapeCastable):
+        return shape.from_bits(value)
+return value
+"""
+REF_SET_PROC = """
+if isinstance(expr, ValueCastable):
+    shape = expr.shape()
+    if isinstance(shape, ShapeCastable):
+        value = shape.const(value)
+value = Const.cast(value).value
+self._engine.set_value(expr, value)
+"""
+REF_SET_TB = REF_SET_PROC + "self._engine.step_design()\n"
+
+
 def r05b(model, ctx):
     R = "R-05b"
-    fg = model.func(f"{ASYNC}::TestbenchContext.get")
-    ok = _guarded_conversion(fg, "from_bits")
-    rets = [s for s in ast.walk(fg) if isinstance(s, ast.Return)]
-    ok = ok and any(unparse(r.value) == "shape.from_bits(value)" for r in rets) and \
-        any(unparse(r.value) == "value" for r in rets) and \
-        any(isinstance(s, ast.Assign) and unparse(s.value) == "self._engine.get_value(expr)" for s in fg.body)
-    ctx.check(ok, R, "TestbenchContext.get", "from_bits applied iff ValueCastable with a ShapeCastable shape",
-              "get() must return shape.from_bits(engine value) exactly when expr is a ValueCastable whose shape() is a "
-              "ShapeCastable, and the raw integer otherwise", f"{ASYNC}:{fg.lineno}")
-    for cname in ("TestbenchContext", "ProcessContext"):
-        fs = model.func(f"{ASYNC}::{cname}.set")
-        ok = _guarded_conversion(fs, "const")
-        # then Const.cast(value).value reaches set_value(expr, value)
-        paths = [p for p in run_paths(fs.body)]
-        oks = True
-        for p in paths:
-            calls = [n for e in p.effects for n in ast.walk(e)
-                     if isinstance(n, ast.Call) and unparse(n.func) == "self._engine.set_value"]
-            if len(calls) != 1:
-                oks = False
-                continue
-            a = calls[0].args
-            conv = any(pol and "ShapeCastable" in unparse(t) for t, pol in p.conds)
-            want = "Const.cast(expr.shape().const(value)).value" if conv else "Const.cast(value).value"
-            oks = oks and unparse(a[0]) == "expr" and unparse(a[1]) == want
-        ctx.check(ok and oks, R, f"{cname}.set", "const() under the same guard, then Const.cast(value).value",
-                  f"{cname}.set must convert through shape.const(value) under the ValueCastable/ShapeCastable guard and "
-                  f"then pass Const.cast(value).value to set_value(expr, ...)", f"{ASYNC}:{fs.lineno}")
+    # whole-method summaries (module-level helpers expanded) against the reference semantics of the conversions
+    from ..engine import refsem
+    fg, paths = refsem.method_paths(model, f"{ASYNC}::TestbenchContext.get")
+    refsem.compare(ctx, R, "TestbenchContext.get", f"{ASYNC}:{fg.lineno}", "TestbenchContext.get", paths, [REF_GET],
+                   fact="from_bits applied iff ValueCastable with a ShapeCastable shape",
+                   why="get() must return shape.from_bits(engine value) exactly when expr is a ValueCastable whose shape() is a "
+                       "ShapeCastable, and the raw integer otherwise.")
+    for cname, ref in (("TestbenchContext", REF_SET_TB), ("ProcessContext", REF_SET_PROC)):
+        fs, paths = refsem.method_paths(model, f"{ASYNC}::{cname}.set")
+        refsem.compare(ctx, R, f"{cname}.set", f"{ASYNC}:{fs.lineno}", f"{cname}.set", paths, [ref],
+                       fact="const() under the same guard, then Const.cast(value).value",
+                       why=f"{cname}.set must convert through shape.const(value) under the ValueCastable/ShapeCastable guard and "
+                           f"then pass Const.cast(value).value to set_value(expr, ...).")
     fc = model.func(f"{PYSIM}::_PyTriggerState.compute_result")
     ok = False
     for n in ast.walk(fc):
